@@ -519,7 +519,7 @@ Lemma transfer_errors_snoc t s dd dc o :
    | Missing | AncFile => [ResourceNotFound] | IsDir => [FileExpected] | IsFile => [] end)
   ++ (if exists_st (status_of t (dd ++ [dc])) && negb o then [DestinationExists] else [])
   ++ (match status_of t (dd ++ [dc]) with IsDir => [FileExpected] | _ => [] end)
-  ++ (if exists_st (status_of t (dd ++ [dc])) then [] else file_parent_errors (status_of t dd)).
+  ++ (if exists_st (status_of t (dd ++ [dc])) then [] else parent_errors (status_of t dd)).
 Proof. unfold transfer_errors, parent. rewrite removelast_app1. destruct dd; reflexivity. Qed.
 
 Lemma fin_move_err s cs cd o pt e :
@@ -611,7 +611,7 @@ Proof.
       destruct (path_eqb (sd ++ [sc]) (dd ++ [dc])) eqn:E.
       { apply path_eqb_eq in E. rewrite E in Hlc. congruence. }
       mstep. unfold ref_move. rewrite transfer_errors_snoc, Hsc, Dsc, Ds.
-      cbn [exists_st andb app file_parent_errors].
+      cbn [exists_st andb app parent_errors].
       rewrite E, Hlc. apply fin_ok; [|reflexivity].
       apply wf_del_any. apply wf_put_file; auto using snoc_ne'.
     + (* destination exists *)
@@ -629,19 +629,298 @@ Proof.
         destruct (is_dir n2); reflexivity.
 Qed.
 
-(* STATEMENTS TO PROVE
+(* ------------------------------------------------------------------ *)
+(* copy                                                                *)
+(* ------------------------------------------------------------------ *)
+Definition copy_tail (qs qd : str) (pt : bool) : MM unit :=
+  if str_eqb qs qd then raise IllegalDestination
+  else
+    mbind (mem_openread qs) (fun d =>
+    mbind (b_upload mem_low qd d) (fun _ =>
+    if pt then b_copy_modified_time mem_low qs qd else ret tt)).
+
+Lemma b_copy_unfold src dst o pt :
+  b_copy mem_low src dst o pt =
+  mbind (mem_validatepath src) (fun _src =>
+  mbind (mem_validatepath dst) (fun _dst =>
+  mbind (if o then ret false else b_exists mem_low _dst) (fun e =>
+  if e then raise DestinationExists else copy_tail _src _dst pt))).
+Proof. reflexivity. Qed.
+
+Lemma fin_copy_err s cs cd o pt e :
+  wf s ->
+  existsb (ecls_eqb e)
+          (transfer_errors s cs cd o ++ (if path_eqb cs cd then [IllegalDestination] else [])) = true ->
+  agree (s, @Err value e) (ref_copy s cs cd o pt) = true /\ wf (fst (s, @Err value e)).
+Proof.
+  intros W H. unfold ref_copy.
+  destruct (transfer_errors s cs cd o ++ (if path_eqb cs cd then [IllegalDestination] else []))
+    as [|x l]; [discriminate|].
+  unfold fail, same. now apply fin_err.
+Qed.
+
+Lemma fin_copy_err' s cs cd o pt e :
+  wf s -> existsb (ecls_eqb e) (transfer_errors s cs cd o) = true ->
+  agree (s, @Err value e) (ref_copy s cs cd o pt) = true /\ wf (fst (s, @Err value e)).
+Proof.
+  intros W H. apply fin_copy_err; [assumption|]. rewrite existsb_app, H. reflexivity.
+Qed.
+
+Lemma copy_tail_ok s cs cd o pt :
+  wf s -> vp cs -> vp cd -> (o = true \/ lookup s cd = None) ->
+  agree (vmap (fun _ => VUnit) (copy_tail (to_path true cs) (to_path true cd) pt) s)
+        (ref_copy s cs cd o pt) = true
+  /\ wf (fst (vmap (fun _ => VUnit) (copy_tail (to_path true cs) (to_path true cd) pt) s)).
+Proof.
+  intros W V1 V2 Ho.
+  pose proof (rpath_nf _ V1) as Q1. pose proof (rpath_nf _ V2) as Q2.
+  destruct V1 as [G1 N1]. destruct V2 as [G2 N2].
+  assert (Hroot : status_of s [] = IsDir) by (destruct W as [Wd _]; simpl; now rewrite Wd).
+  unfold copy_tail. rewrite (to_path_eqb cs cd G1 G2).
+  destruct (path_eqb cs cd) eqn:E; mstep.
+  { apply fin_copy_err; [assumption|]. rewrite E, existsb_app. apply orb_true_iff. now right. }
+  destruct (list_snoc_case cs) as [->|[sd [sc ->]]].
+  { rewrite (mem_openread_root _ s Q1). mstep.
+    apply fin_copy_err'; [assumption|]. unfold transfer_errors. rewrite Hroot. reflexivity. }
+  rewrite (mem_openread_snoc _ _ _ s Q1).
+  pview s sd sc; rewrite ?Hl, ?Ha; mstep;
+    try (apply fin_copy_err'; [assumption|]; unfold transfer_errors; rewrite Hsc; reflexivity).
+  destruct n as [data mt|e3 m3]; cbn [is_dir] in Hsc; mstep;
+    try (apply fin_copy_err'; [assumption|]; unfold transfer_errors; rewrite Hsc; reflexivity).
+  unfold b_upload. cbn [l_openwrite mem_low].
+  set (wr := match data with [] => None | _ :: _ => Some data end).
+  assert (Hw : wr = None \/ m_writing m_wb = true) by (right; reflexivity).
+  assert (Hwr : match wr with Some x => x | None => [] end = data) by (subst wr; destruct data; reflexivity).
+  destruct (list_snoc_case cd) as [->|[dd [dc ->]]].
+  { rewrite (mem_openwrite_root _ _ wr s Q2 m_wb_valid). mstep.
+    apply fin_copy_err'; [assumption|]. unfold transfer_errors. rewrite Hsc, Hroot.
+    destruct o; reflexivity. }
+  rewrite (mem_openwrite_snoc _ _ _ _ wr s Q2 m_wb_valid Hw).
+  change (m_create m_wb && m_exclusive m_wb) with false. change (m_create m_wb) with true.
+  (* the state after a successful upload, and the end of the call *)
+  assert (Hfin : forall dents dm2 X,
+             lookup s dd = Some (Dir dents dm2) ->
+             (lookup s (dd ++ [dc]) = None \/
+              exists d2 m2, lookup s (dd ++ [dc]) = Some (File d2 m2)) ->
+             transfer_errors s (sd ++ [sc]) (dd ++ [dc]) o = [] ->
+             X = match data, lookup s (dd ++ [dc]) with
+                 | [], Some (File _ m) => m
+                 | _, _ => None
+                 end ->
+             agree
+               (let (s', o0) :=
+                  (if pt
+                   then b_copy_modified_time mem_low (to_path true (sd ++ [sc])) (to_path true (dd ++ [dc]))
+                   else fun s0 => (s0, Ok tt)) (put s (dd ++ [dc]) (File data X)) in
+                match o0 with
+                | Ok _ => (s', Ok VUnit)
+                | Err e => (s', Err e)
+                | Crash k => (s', Crash k)
+                end)
+               (ref_copy s (sd ++ [sc]) (dd ++ [dc]) o pt) = true /\
+             wf (fst
+               (let (s', o0) :=
+                  (if pt
+                   then b_copy_modified_time mem_low (to_path true (sd ++ [sc])) (to_path true (dd ++ [dc]))
+                   else fun s0 => (s0, Ok tt)) (put s (dd ++ [dc]) (File data X)) in
+                match o0 with
+                | Ok _ => (s', Ok VUnit)
+                | Err e => (s', Err e)
+                | Crash k => (s', Crash k)
+                end))).
+  { intros dents dm2 X Dl Hd Hte HX.
+    unfold ref_copy. rewrite Hte, E, Hlc. cbn [app].
+    destruct pt.
+    - unfold b_copy_modified_time. cbn [l_getinfo l_setinfo mem_low]. mstep.
+      rewrite (mem_getinfo_spec _ _ _ Q1).
+      rewrite (lookup_put_file _ _ _ _ _ _ Hlc) by
+          (auto; intro Heq; rewrite Heq, path_eqb_refl in E; discriminate).
+      mstep. cbn [i_mt to_info node_mt].
+      rewrite (mem_setinfo_spec _ _ _ _ Q2).
+      rewrite (lookup_put_same _ _ _ _ _ _ Dl). cbn [set_mt]. rewrite put_put.
+      apply fin_ok; [|reflexivity]. apply wf_put_file; auto using snoc_ne'.
+    - subst X. apply fin_ok; [|reflexivity]. apply wf_put_file; auto using snoc_ne'. }
+  pview2 s dd dc; rewrite ?Dl, ?Da; mstep;
+    try (apply fin_copy_err'; [assumption|]; rewrite transfer_errors_snoc, Hsc, Dsc, Ds; reflexivity).
+  - (* new destination *)
+    rewrite Hwr. eapply Hfin; eauto.
+    + rewrite transfer_errors_snoc, Hsc, Dsc, Ds. reflexivity.
+    + rewrite Dlc. destruct data; reflexivity.
+  - (* existing destination *)
+    destruct Ho as [->|Ho]; [|congruence].
+    destruct n2 as [old dmt|e4 m4]; cbn [is_dir] in Dsc; mstep.
+    + unfold ow_state. change (m_truncate m_wb) with true. cbv iota.
+      assert (Hte : transfer_errors s (sd ++ [sc]) (dd ++ [dc]) true = [])
+        by (rewrite transfer_errors_snoc, Hsc, Dsc; reflexivity).
+      subst wr. destruct data as [|b0 data].
+      * eapply Hfin; eauto. now rewrite Dlc.
+      * eapply Hfin; eauto.
+    + apply fin_copy_err'; [assumption|]. rewrite transfer_errors_snoc, Hsc, Dsc. reflexivity.
+Qed.
+
+Lemma te_dest_exists s cs cd n :
+  lookup s cd = Some n ->
+  existsb (ecls_eqb DestinationExists) (transfer_errors s cs cd false) = true.
+Proof.
+  intro H. unfold transfer_errors. rewrite exists_st_lookup, H. cbn [negb andb].
+  rewrite existsb_app. apply orb_true_iff. right. reflexivity.
+Qed.
+
+Lemma vmap_mbind {A B} (f : B -> value) (m : MM A) (k : A -> MM B) s :
+  vmap f (mbind m k) s =
+  match m s with
+  | (s', Ok a) => vmap f (k a) s'
+  | (s', Err e) => (s', Err e)
+  | (s', Crash c) => (s', Crash c)
+  end.
+Proof. unfold vmap, mbind. destruct (m s) as [s' [a|e|c]]; reflexivity. Qed.
+
+Lemma step_copy src dst o pt s : wf s -> step_ok (OCopy src dst o pt) s.
+Proof.
+  intro W. unfold step_ok. cbn [mem_run ref_run]. unfold mem_copy. rewrite b_copy_unfold.
+  destruct (rpath src) as [cs|e1] eqn:R1.
+  2:{ destruct (with2_bad1 s src dst (fun a b => ref_copy s a b o pt) e1 R1) as (adm & Hr & He).
+      rewrite Hr. mstep. rewrite (validate_inr _ _ s R1). mstep.
+      unfold fail. apply fin_err; assumption. }
+  destruct (rpath dst) as [cd|e2] eqn:R2.
+  2:{ unfold with2. rewrite R1, R2. mstep.
+      rewrite (validate_inl _ _ s R1). mstep. rewrite (validate_inr _ _ s R2). mstep. fin_bad R2. }
+  unfold with2. rewrite R1, R2.
+  pose proof (rpath_vp _ _ R1) as V1. pose proof (rpath_vp _ _ R2) as V2.
+  rewrite vmap_mbind, (validate_inl _ _ s R1). cbv beta iota.
+  rewrite vmap_mbind, (validate_inl _ _ s R2). cbv beta iota.
+  rewrite vmap_mbind.
+  destruct o.
+  - unfold ret at 1. cbv beta iota.
+    apply (copy_tail_ok s cs cd true pt W V1 V2). now left.
+  - rewrite (mem_exists_spec _ _ s (rpath_nf _ V2)). cbv beta iota.
+    destruct (lookup s cd) as [n|] eqn:L; cbv beta iota.
+    + mstep. apply fin_copy_err'; [assumption|]. eapply te_dest_exists; eauto.
+    + apply (copy_tail_ok s cs cd false pt W V1 V2). now right.
+Qed.
+
+(* ------------------------------------------------------------------ *)
+(* the two main theorems                                               *)
+(* ------------------------------------------------------------------ *)
+Lemma step_covered o s : wf s -> covered o = true -> step_ok o s.
+Proof.
+  intros W C. destruct o; try discriminate C.
+  - now apply step_getinfo.
+  - now apply step_listdir.
+  - now apply step_scandir.
+  - now apply step_makedir.
+  - now apply step_writebytes.
+  - now apply step_appendbytes.
+  - now apply step_readbytes.
+  - now apply step_create.
+  - now apply step_touch.
+  - now apply step_openwrite.
+  - now apply step_openread.
+  - now apply step_remove.
+  - now apply step_removedir.
+  - now apply step_removetree.
+  - now apply step_move.
+  - now apply step_copy.
+  - now apply step_setinfo.
+  - now apply step_exists.
+  - now apply step_isdir.
+  - now apply step_isfile.
+  - now apply step_isempty.
+  - now apply step_getsize.
+  - now apply step_gettype.
+Qed.
 
 Theorem mem_wf_preserved : forall o s, wf s -> covered o = true -> wf (fst (mem_run o s)).
+Proof. intros o s W C. exact (proj2 (step_covered o s W C)). Qed.
 
 Theorem mem_refines_ref : forall o s, wf s -> covered o = true ->
   agree (mem_run o s) (ref_run o s) = true.
+Proof. intros o s W C. exact (proj1 (step_covered o s W C)). Qed.
 
-(* fast path of MemoryFS.movedir: destination does not exist *)
+(* ------------------------------------------------------------------ *)
+(* fast path of MemoryFS.movedir: destination does not exist           *)
+(* ------------------------------------------------------------------ *)
+Lemma dirtransfer_errors_snoc t s dd dc create :
+  dirtransfer_errors t s (dd ++ [dc]) create true =
+  (if list_prefix s (dd ++ [dc]) then [IllegalDestination] else [])
+  ++ (match status_of t s with
+      | Missing => [ResourceNotFound] | AncFile => [ResourceNotFound; DirectoryExpected]
+      | IsFile => [DirectoryExpected] | IsDir => [] end)
+  ++ (match status_of t (dd ++ [dc]) with
+      | IsFile => [DirectoryExpected; DirectoryExists]
+      | IsDir => []
+      | _ => (if create then [] else [ResourceNotFound]) ++ parent_errors (status_of t dd)
+      end).
+Proof. unfold dirtransfer_errors, parent. rewrite removelast_app1. destruct dd; reflexivity. Qed.
+
+Lemma fin_dt_err s cs cd create pt e :
+  wf s -> path_eqb cs cd = false ->
+  existsb (ecls_eqb e) (dirtransfer_errors s cs cd create true) = true ->
+  agree (s, @Err value e) (ref_dirtransfer s cs cd create pt true) = true
+  /\ wf (fst (s, @Err value e)).
+Proof.
+  intros W E H. unfold ref_dirtransfer. rewrite E. cbn [andb].
+  destruct (dirtransfer_errors s cs cd create true) as [|x l]; [discriminate|].
+  unfold fail, same. now apply fin_err.
+Qed.
+
+Lemma movedir_fast src dst create pt s cs cd :
+  wf s -> rpath src = inl cs -> rpath dst = inl cd -> lookup s cd = None ->
+  step_ok (OMovedir src dst create pt) s.
+Proof.
+  intros W R1 R2 Lcd. unfold step_ok. cbn [mem_run ref_run]. unfold with2. rewrite R1, R2.
+  pose proof (rpath_good _ _ R1) as G1. pose proof (rpath_good _ _ R2) as G2.
+  destruct (list_snoc_case cd) as [->|[dd [dc ->]]]; [discriminate Lcd|].
+  destruct (good_snoc _ _ G2) as [Gdd Gdc].
+  unfold mem_movedir. mstep. rewrite (validate_inl _ _ s R1). mstep.
+  rewrite (validate_inl _ _ s R2). mstep.
+  rewrite (psplit_snoc true dd dc Gdd Gdc).
+  rewrite (to_path_eqb cs (dd ++ [dc]) G1 G2).
+  rewrite (isbase_nf true cs true (dd ++ [dc]) G1 G2), <- list_prefix_cprefix.
+  destruct (list_snoc_case cs) as [->|[sd [sc ->]]].
+  { rewrite to_path_root, psplit_root. mstep.
+    assert (E : path_eqb [] (dd ++ [dc]) = false) by (destruct dd; reflexivity).
+    rewrite E. cbn [list_prefix]. mstep.
+    apply fin_dt_err; [assumption|assumption|]. rewrite dirtransfer_errors_snoc. reflexivity. }
+  destruct (good_snoc _ _ G1) as [Gsd Gsc].
+  rewrite (psplit_snoc true sd sc Gsd Gsc). mstep.
+  destruct (path_eqb (sd ++ [sc]) (dd ++ [dc])) eqn:E; mstep.
+  { unfold ref_dirtransfer. rewrite E. cbn [andb]. fin_ok. }
+  destruct (list_prefix (sd ++ [sc]) (dd ++ [dc])) eqn:P; mstep.
+  { apply fin_dt_err; [assumption|assumption|]. rewrite dirtransfer_errors_snoc, P. reflexivity. }
+  rewrite get_dir_entry_nf by assumption. mstep.
+  pview s sd sc; rewrite ?Hl, ?Ha; mstep;
+    try (apply fin_dt_err; [assumption|assumption|];
+         rewrite dirtransfer_errors_snoc, P, Hsc; reflexivity).
+  destruct n as [sdata smt|e3 m3]; cbn [is_dir] in Hsc; mstep;
+    try (apply fin_dt_err; [assumption|assumption|];
+         rewrite dirtransfer_errors_snoc, P, Hsc; reflexivity).
+  rewrite get_dir_entry_nf by assumption. mstep. rewrite Lcd. mstep.
+  rewrite get_dir_entry_nf by assumption. mstep.
+  pview2 s dd dc; rewrite ?Dl; mstep;
+    try (apply fin_dt_err; [assumption|assumption|];
+         rewrite dirtransfer_errors_snoc, P, Hsc, Dsc, Ds; destruct create; reflexivity).
+  2:{ congruence. }
+  destruct create; cbn [negb]; mstep.
+  2:{ apply fin_dt_err; [assumption|assumption|].
+      rewrite dirtransfer_errors_snoc, P, Hsc, Dsc, Ds. reflexivity. }
+  rewrite !iteratepath_nf by assumption. mstep.
+  assert (Wn : wf (del (put s (dd ++ [dc]) (Dir e3 m3)) (sd ++ [sc]))).
+  { apply wf_del_any. apply wf_put_ne; auto using snoc_ne'.
+    destruct W as [_ W]. eapply wf_lookup; eauto. }
+  unfold ref_dirtransfer. rewrite E. cbn [andb].
+  rewrite dirtransfer_errors_snoc, P, Hsc, Dsc, Ds. cbn [app parent_errors].
+  destruct (list_prefix (dd ++ [dc]) (sd ++ [sc])).
+  - split; [reflexivity|exact Wn].
+  - rewrite Hlc, Lcd. apply fin_ok; [exact Wn|reflexivity].
+Qed.
+
 Theorem mem_movedir_refines_ref : forall src dst create pt s cs cd,
   wf s -> rpath src = inl cs -> rpath dst = inl cd -> lookup s cd = None ->
   agree (mem_run (OMovedir src dst create pt) s) (ref_run (OMovedir src dst create pt) s) = true.
+Proof. intros. exact (proj1 (movedir_fast src dst create pt s cs cd H H0 H1 H2)). Qed.
 
 Theorem mem_movedir_wf : forall src dst create pt s cs cd,
   wf s -> rpath src = inl cs -> rpath dst = inl cd -> lookup s cd = None ->
   wf (fst (mem_run (OMovedir src dst create pt) s)).
-*)
+Proof. intros. exact (proj2 (movedir_fast src dst create pt s cs cd H H0 H1 H2)). Qed.
